@@ -1,7 +1,7 @@
 (* PV.C14.Properties — the property theorems of C14 and nothing else.
    Quantities are integers in units of 1/scale (see Model.v); `set_lab r 0` forgets the index label. *)
 From Coq Require Import ZArith List Bool Permutation.
-From PV Require Import C14.Model C14.Proofs C14.ProofsDoseid C14.ProofsExpand C14.ProofsTad C14.ProofsMisc C14.ProofsTadWalk.
+From PV Require Import C14.Model C14.Proofs C14.ProofsDoseid C14.ProofsExpand C14.ProofsTad C14.ProofsMisc C14.ProofsTadWalk C14.ProofsExtend.
 Import ListNotations.
 Local Open Scope Z_scope.
 
@@ -134,3 +134,51 @@ Theorem tad_refines : forall d : dataset,
   has_addl (ds_sch d) = false -> guard_doseid d = true -> guard_tad_frame d = true ->
   exists out, tad_impl d = Ok out /\ map snd out = tad_walk d.
 Proof. exact tad_refines_lemma. Qed.
+
+(* ---------------------------------------------------------------- extensions *)
+(* expand_additional_doses, arithmetic: up to the order and the new index labels, the expanded frame
+   consists exactly of the implied doses of every record — dose k at TIME + k*II for k = 0..ADDL, every
+   other field (AMT, CMT, SS, covariates, ...) as in the record, flagged EXPANDED for k > 0. *)
+Theorem expand_times_amounts : forall (d : dataset) (l : list (row * bool)),
+  has_addl (ds_sch d) && has_ii (ds_sch d) = true -> g_addl_nonneg (ds_rows d) = true ->
+  expand_impl d = Ok l ->
+  Permutation (map unlab_e l) (map unlab_e (flat_map implied (ds_rows d))).
+Proof. exact expand_times_amounts_lemma. Qed.
+
+(* add_time_after_dose = the per-individual walk over the WORKING FRAME, for datasets with or without
+   ADDL: with an ADDL column the frame is the expanded one (its records are the implied doses above), and
+   the TAD of every original record is the walk's value at that record — when get_doseid refines its
+   walk on the frame and no DOSEID is out of order there (guard_tad_frame). *)
+Theorem tad_refines_frame : forall (d : dataset) (fr : list (row * bool)), tad_frame d = Ok fr ->
+  guard_doseid (with_rows d (map fst fr) true) = true -> guard_tad_frame d = true ->
+  exists out, tad_impl d = Ok out
+    /\ map snd out = map snd (filter (fun p : (row * bool) * Z => negb (snd (fst p)))
+                                    (combine fr (tad_walk (with_rows d (map fst fr) true)))).
+Proof. exact tad_refines_frame_lemma. Qed.
+
+(* get_ids / get_number_of_individuals = the individuals in the order the walk meets them *)
+Theorem ids_spec : forall d : dataset, ids_impl d = ids_walk d.
+Proof. exact ids_spec_lemma. Qed.
+
+Theorem nind_spec : forall d : dataset, nind_impl d = Z.of_nat (length (ids_walk d)).
+Proof. exact nind_spec_lemma. Qed.
+
+(* get_covariate_baselines = the covariates of the first record of every individual *)
+Theorem covbase_spec : forall (ncov : nat) (d : dataset), ncov <> O -> covbase_impl ncov d = Ok (covbase_walk d).
+Proof. exact covbase_spec_lemma. Qed.
+
+(* add_cmt / add_admid (add_column_frame for these two): every record, every other field and the order
+   are kept, the new column is what get_cmt / get_admid return, and nothing happens when the column
+   exists — for every dataset on which the function returns *)
+Theorem add_cmt_frame : forall (mi : minfo) (d : dataset) (rows' : list row), add_cmt_impl mi d = Ok rows' ->
+  map (fun r => set_cmt r 0) rows' = map (fun r => set_cmt r 0) (ds_rows d)
+  /\ (has_cmt (ds_sch d) = true -> rows' = ds_rows d)
+  /\ (has_cmt (ds_sch d) = false -> exists cmt, cmt_impl mi d = Ok cmt /\ map r_cmt rows' = map snd cmt).
+Proof. exact add_cmt_frame_lemma. Qed.
+
+Theorem add_admid_frame : forall (mi : minfo) (d : dataset) (rows' : list row), add_admid_impl mi d = Ok rows' ->
+  map (fun r => set_admid r 0) rows' = map (fun r => set_admid r 0) (ds_rows d)
+  /\ (has_admid (ds_sch d) = true -> rows' = ds_rows d)
+  /\ (has_admid (ds_sch d) = false -> exists adm, admid_impl mi d = Ok adm /\ map r_admid rows' = map snd adm).
+Proof. exact add_admid_frame_lemma. Qed.
+
